@@ -12,9 +12,33 @@ import warnings
 
 import numpy as np
 
-import pydl
-import pydl.pydlutils.sdss as S
-import pydl.pydlspec2d.spec2d as SP
+
+def global_state():
+    """process-global settings a library must leave alone (class C of round 6)"""
+    return {'np.geterr': dict(np.geterr()), 'np.printoptions': {k: repr(v) for k, v in np.get_printoptions().items()},
+            'os.environ': dict(os.environ), 'warnings.filters': len(warnings.filters)}
+
+
+def state_diff(a, b, keys=None):
+    return sorted(k for k in (keys or a) if a[k] != b[k])
+
+
+# third-party packages first, so that THEIR import-time effects are not attributed to pydl
+import astropy  # noqa: E402,F401
+import astropy.io.fits  # noqa: E402,F401
+import astropy.units  # noqa: E402,F401
+import scipy.signal  # noqa: E402,F401
+import scipy.special  # noqa: E402,F401
+from astropy import log as _astropy_log  # noqa: E402,F401
+from astropy.utils.data import download_file as _df  # noqa: E402,F401
+
+STATE_BEFORE_IMPORT = global_state()
+import pydl  # noqa: E402
+from pydl.pydlspec2d.spec2d import combine1fiber as _user_c1f  # noqa: E402,F401  (the way a user imports it)
+from pydl.pydlspec2d.spec1d import preprocess_spectra as _user_pp  # noqa: E402,F401
+STATE_AFTER_IMPORT = global_state()
+import pydl.pydlutils.sdss as S  # noqa: E402
+import pydl.pydlspec2d.spec2d as SP  # noqa: E402
 
 HERE = os.path.dirname(os.path.abspath(__file__))
 S.maskbits = S.set_maskbits(maskbits_file=os.path.join(HERE, 'c11_maskbits.par'))
@@ -41,9 +65,49 @@ def arr(v):
     return None if v is None else np.array(v, dtype='d')
 
 
-def run_combine(inloglam, flux, newloglam, ivar, kwargs):
-    """-> dict with outputs and the recorded internals"""
+def lay(a, kind):
+    """the same VALUES as `a` (C-contiguous float64 or whatever dtype the case asks for) in another memory layout / storage
+    type.  Every call builds fresh storage, so the result can be handed to the code under test as a caller-owned array."""
+    if a is None:
+        return None
+    if kind in (None, 'C'):
+        return np.array(a, order='C')
+    if kind == 'F':                                   # Fortran-ordered
+        return np.array(a, order='F')
+    if kind == 'T':                                   # transposed view of a C-contiguous (npix, nexp) table
+        return np.ascontiguousarray(a.T).T if a.ndim == 2 else np.array(a)
+    if kind == 'S':                                   # every 2nd column of a wider array (filler must never be read)
+        w = np.full(a.shape[:-1] + (2 * a.shape[-1],), -777.0).astype(a.dtype)
+        w[..., ::2] = a
+        return w[..., ::2]
+    if kind == 'SR':                                  # every 2nd row of a taller array
+        if a.ndim != 2:
+            return lay(a, 'S')
+        w = np.full((2 * a.shape[0], a.shape[1]), -777.0).astype(a.dtype)
+        w[::2, :] = a
+        return w[::2, :]
+    if kind == 'R':                                   # negative stride along the pixels
+        return np.ascontiguousarray(a[..., ::-1])[..., ::-1]
+    if kind == 'RR':                                  # negative stride along the exposures
+        return np.ascontiguousarray(a[::-1])[::-1] if a.ndim == 2 else lay(a, 'R')
+    if kind == 'BE':                                  # big-endian, as astropy.io.fits delivers it
+        return a.astype(a.dtype.newbyteorder('>'))
+    if kind == 'f4':
+        return a.astype('f4')
+    if kind == 'f4F':
+        return np.array(a.astype('f4'), order='F')
+    raise ValueError(kind)
+
+
+def same_layout_copy(a):
+    """pristine copy for the argument-immutability comparison (values and dtype)"""
+    return np.array(a, order='C')
+
+
+def run_combine(inloglam, flux, newloglam, ivar, kwargs, layout=None):
+    """-> dict with outputs and the recorded internals.  layout: {'L','F','V','N': kind, 'kw': None|'disp'}"""
     rec = []
+    layout = layout or {}
     orig = SP.iterfit
 
     def spy(xdata, ydata, invvar=None, **kw):
@@ -65,12 +129,21 @@ def run_combine(inloglam, flux, newloglam, ivar, kwargs):
         stage.setdefault('pre_flux', fl(flux_))           # spline values before the cosmetic fill
         return orig_aes(flux_, invvar_, method=method)
     SP.smooth, SP.aesthetics = spy_smooth, spy_aes
-    iv = None if ivar is None else ivar.copy()
-    a_in, a_fl, a_new = inloglam.copy(), flux.copy(), newloglam.copy()      # caller-owned arrays
+    # caller-owned arrays, in the memory layout / storage type the case asks for
+    iv = lay(ivar, layout.get('V'))
+    a_in, a_fl, a_new = lay(inloglam, layout.get('L')), lay(flux, layout.get('F')), lay(newloglam, layout.get('N'))
+    if layout:
+        inloglam, flux, newloglam = same_layout_copy(a_in), same_layout_copy(a_fl), same_layout_copy(a_new)
+        ivar = None if iv is None else same_layout_copy(iv)
+    call_kwargs = dict(kwargs)
+    if layout.get('kw') == 'disp':
+        # the optional dispersion / sky arrays (newdisp, newsky are never returned): must not change (newflux, newivar)
+        call_kwargs['indisp'] = lay(1.0 + 0.0 * np.asarray(inloglam, dtype='d'), layout.get('D'))
+        call_kwargs['skyflux'] = lay(0.5 + 0.0 * np.asarray(inloglam, dtype='d'), layout.get('D'))
     try:
         with warnings.catch_warnings():
             warnings.simplefilter('ignore')
-            nf, ni = SP.combine1fiber(a_in, a_fl, a_new, objivar=iv, **kwargs)
+            nf, ni = SP.combine1fiber(a_in, a_fl, a_new, objivar=iv, **call_kwargs)
     finally:
         SP.iterfit = orig
         SP.smooth, SP.aesthetics = orig_smooth, orig_aes
@@ -83,10 +156,10 @@ def run_combine(inloglam, flux, newloglam, ivar, kwargs):
            'objivar_modified': bool(iv is not None and not same(iv, ivar)),
            'newflux': fl(nf), 'newivar': fl(ni), 'len_flux': int(np.asarray(nf).size), 'len_ivar': int(np.asarray(ni).size),
            'finite': bool(np.all(np.isfinite(nf)) and np.all(np.isfinite(ni)))}
-    if 'pre_ivar' in stage and 'pre_flux' in stage and all(np.isfinite(stage['pre_ivar'])) and all(np.isfinite(stage['pre_flux'])):
+    if 'pre_ivar' in stage and 'pre_flux' in stage and all(isinstance(v, float) for v in stage['pre_ivar'] + stage['pre_flux']):
         out['pre_ivar'] = stage['pre_ivar']
         out['pre_flux'] = stage['pre_flux']
-    # ---- glue: the grouping, with the expressions of the source
+    # ---- glue: the grouping, with the expressions of the source (on the LOGICAL arrays: ravel() = C order)
     inr = inloglam.ravel()
     npix = inr.size
     if ivar is None:
@@ -145,10 +218,92 @@ def do_combine(c):
     newloglam = arr(c['newloglam'])
     kwargs = dict(c.get('kwargs') or {})
     try:
-        out = run_combine(inloglam, flux, newloglam, ivar, kwargs)
+        # c['layout']: replay of a layout run (the stored call carries the layout that made the difference)
+        out = run_combine(inloglam, flux, newloglam, ivar, kwargs, layout=c.get('layout'))
     except Exception as e:  # noqa: BLE001
         return err(e, 'combine1fiber')
     ex = c.get('extras') or {}
+
+    def outputs_same(o):
+        return o['newflux'] == out['newflux'] and o['newivar'] == out['newivar']
+
+    # ---- class B: the same values in other memory layouts / storage types, each array independently
+    runs = []
+    for spec in ex.get('layouts') or []:
+        f4 = [k for k in 'LFV' if str(spec.get(k, '')).startswith('f4')]
+        ref = out
+        try:
+            if any(k in f4 for k in 'FV'):
+                # float32 storage of flux / weights: the reference is the float64 call on the float32-representable values
+                fl32 = flux.astype('f4').astype('d') if 'F' in f4 else flux
+                iv32 = ivar.astype('f4').astype('d') if ('V' in f4 and ivar is not None) else ivar
+                if not (np.array_equal(fl32, flux) and (ivar is None or np.array_equal(iv32, ivar))):
+                    ref = run_combine(inloglam, fl32, newloglam, iv32, kwargs)
+                rv = run_combine(inloglam, fl32, newloglam, iv32, kwargs, layout=spec)
+            else:
+                rv = run_combine(inloglam, flux, newloglam, ivar, kwargs, layout=spec)
+        except Exception as e:  # noqa: BLE001
+            runs.append({'spec': spec, 'err': type(e).__name__, 'msg': str(e)[:200]})
+            continue
+        one = {'spec': spec, 'identical': rv['newflux'] == ref['newflux'] and rv['newivar'] == ref['newivar'],
+               'args_mutated': rv['args_mutated'], 'result_aliases_arg': rv['result_aliases_arg'], 'finite': rv['finite']}
+        if not one['identical']:
+            one['same_knots'] = [None if f is None else len(f['bk']) for f in rv['fits']] == \
+                                [None if f is None else len(f['bk']) for f in ref['fits']]
+            one['ref_is_base'] = ref is out
+            one['ref'] = {'newflux': ref['newflux'], 'newivar': ref['newivar']}
+            one['record'] = rv                   # the whole record: judged in Coq by the harness
+        runs.append(one)
+    if runs:
+        out['layout_runs'] = runs
+    # ---- class A: the very same array objects again after the caller changed one in place; a fresh call must agree
+    if ex.get('repeat'):
+        try:
+            with warnings.catch_warnings():
+                warnings.simplefilter('ignore')
+                A_in, A_fl, A_new = inloglam.copy(), flux.copy(), newloglam.copy()
+                r1 = SP.combine1fiber(A_in, A_fl, A_new, objivar=None if ivar is None else ivar.copy(), **kwargs)
+                first_same = fl(r1[0]) == out['newflux'] and fl(r1[1]) == out['newivar']
+                keep = (r1[0].copy(), r1[1].copy())
+                A_fl += 1.0                      # caller refills its buffer in place
+                A_fl[..., ::7] -= 0.5
+                r2 = SP.combine1fiber(A_in, A_fl, A_new, objivar=None if ivar is None else ivar.copy(), **kwargs)
+                results_kept = bool(np.array_equal(keep[0], r1[0], equal_nan=True) and np.array_equal(keep[1], r1[1], equal_nan=True))
+                r3 = SP.combine1fiber(inloglam.copy(), A_fl.copy(), newloglam.copy(),
+                                      objivar=None if ivar is None else ivar.copy(), **kwargs)
+            out['repeat'] = {'first_same': bool(first_same), 'earlier_result_kept': results_kept,
+                             'second_same_as_fresh': bool(np.array_equal(r2[0], r3[0], equal_nan=True) and
+                                                          np.array_equal(r2[1], r3[1], equal_nan=True)),
+                             'second_differs_from_first': bool(not np.array_equal(r2[0], r1[0], equal_nan=True))}
+        except Exception as e:  # noqa: BLE001
+            out['repeat'] = err(e, 'combine1fiber')
+    # ---- class G: NaN / inf in the flux of zero-weight pixels must not leak (nor change anything)
+    if ex.get('badflux') and ivar is not None:
+        try:
+            f2 = flux.astype('d')
+            f2[np.asarray(ivar) <= 0] = {'nan': np.nan, 'inf': np.inf, '-inf': -np.inf, 'huge': 1e300}[ex['badflux']]
+            o2 = run_combine(inloglam, f2, newloglam, ivar, kwargs)
+            out['badflux'] = {'finite': o2['finite'], 'identical': outputs_same(o2), 'n_bad': int((np.asarray(ivar) <= 0).sum())}
+        except Exception as e:  # noqa: BLE001
+            out['badflux'] = err(e, 'combine1fiber')
+    # ---- class G: NaN / inf among the WEIGHTS: the documented outcome is finite output with ivar >= 0
+    if ex.get('badivar') and ivar is not None:
+        try:
+            v2 = np.array(ivar, dtype='d')
+            v2[np.asarray(ivar) <= 0] = {'nan': np.nan, '-inf': -np.inf, 'neg': -1.0}[ex['badivar']]
+            o2 = run_combine(inloglam, flux, newloglam, v2, kwargs)
+            out['badivar'] = {'finite': o2['finite'], 'nonneg': all(isinstance(v, float) and v >= 0 for v in o2['newivar']),
+                              'identical': outputs_same(o2), 'n_bad': int((np.asarray(ivar) <= 0).sum())}
+        except Exception as e:  # noqa: BLE001
+            out['badivar'] = err(e, 'combine1fiber')
+    # ---- class C: the call under a caller-chosen floating-point error state (all='raise')
+    if ex.get('errstate'):
+        try:
+            with np.errstate(all='raise'):
+                o2 = run_combine(inloglam, flux, newloglam, ivar, kwargs)
+            out['errstate'] = {'identical': outputs_same(o2)}
+        except Exception as e:  # noqa: BLE001
+            out['errstate'] = err(e, 'combine1fiber')
     if 'scale' in ex:
         s = float(ex['scale'])
         try:
@@ -226,7 +381,16 @@ def main():
                 res.append({'outcome': type(e).__name__})
         else:
             res.append({'err': 'BadCall', 'stage': 'harness'})
-    real_stdout.write(json.dumps({'pydl_file': pydl.__file__, 'results': res}, allow_nan=False))
+    after_calls = global_state()
+    real_stdout.write(json.dumps({'pydl_file': pydl.__file__, 'results': res,
+                                  'global_state': {
+                                      # the import of pydl adds one warnings filter (astropy's): length not judged at import
+                                      'changed_by_import': state_diff(STATE_BEFORE_IMPORT, STATE_AFTER_IMPORT,
+                                                                      ['np.geterr', 'np.printoptions', 'os.environ']),
+                                      'warnings_filters_import': [STATE_BEFORE_IMPORT['warnings.filters'],
+                                                                  STATE_AFTER_IMPORT['warnings.filters']],
+                                      'changed_by_calls': state_diff(STATE_AFTER_IMPORT, after_calls),
+                                      'geterr': after_calls['np.geterr']}}, allow_nan=False))
 
 
 if __name__ == '__main__':
